@@ -228,7 +228,9 @@ def printable_chars(rule, crate, dialect):
     """Every printable ASCII character, in the form the printer writes it, is read back as itself."""
     # the printable range comes from the writer: (32..127).contains(&n)
     wf = crate.fn("print::write_elisp_char" if dialect == "elisp" else "print::write_scheme_char")
-    rf = crate.fn("parse::read::parse_elisp_char" if dialect == "elisp" else "parse::read::parse_r6rs_char")
+    nm = "parse_elisp_char" if dialect == "elisp" else "parse_r6rs_char"
+    # the free function the trait's provided method forwards to, or - with its body moved back - that method itself
+    rf = crate.fn("parse::read::" + nm) or crate.fn("parse::read::Read::" + nm)
     if wf is None or rf is None:
         rule.anchor_missing("char writer / reader for %s" % dialect)
         return
